@@ -16,6 +16,9 @@ Inductive probe :=
 Inductive ans :=
 | AIdent (b : bool)
 | AAssert (ok : bool) (missing : string)
+| AAssertL (ok : bool) (missing : list string)   (* model / spec side: ALL missing methods.  Which of several missing
+                                                    methods a failed assertion names is an implementation detail (Go's
+                                                    run-time walks its own sorted tables, gopherjs the interface's list) *)
 | AMset (l : list (string * string * option N))
 | AEq (r : option bool)
 | ASkip.
@@ -32,6 +35,8 @@ Definition ans_eqb (a b : ans) : bool :=
   | ASkip, _ | _, ASkip => true
   | AIdent x, AIdent y => Bool.eqb x y
   | AAssert x m, AAssert y m' => Bool.eqb x y && (x || String.eqb m m')
+  | AAssertL x l, AAssert y m | AAssert y m, AAssertL x l => Bool.eqb x y && (x || existsb (String.eqb m) l)
+  | AAssertL x l, AAssertL y l' => Bool.eqb x y && (x || existsb (fun m => existsb (String.eqb m) l') l)
   | AMset l, AMset l' => (N.of_nat (List.length l) =? N.of_nat (List.length l')) && forallb (fun o => existsb (me_eqb o) l') l
   | AEq (Some x), AEq (Some y) => Bool.eqb x y
   | AEq None, AEq None => true
@@ -53,7 +58,11 @@ Definition step_impl (fl : flags) (s : st) (ids : list N) (acc : list ans * memo
   match p with
   | PIdent i j => (out ++ [AIdent (nthN i ids 0 =? nthN j ids 0)], m)
   | PAssert i j =>
-      let '((ok, x), m') := assert_impl fl s (nthN i ids 0) (nthN j ids 0) m in (out ++ [AAssert ok x], m')
+      let '((ok, x), m') := assert_impl fl s (nthN i ids 0) (nthN j ids 0) m in
+      (* the name $assertType reports is the first missing one in the interface's own order; accept any missing one *)
+      let vms := mset_impl fl s (nthN i ids 0) in
+      let all := map rm_name (filter (fun tm => negb (existsb (fun vm => meth_match vm tm) vms)) (iface_methods s (nthN j ids 0))) in
+      (out ++ [if existsb (String.eqb x) all then AAssertL ok all else AAssert ok x], m')
   | PMset i =>
       (out ++ [AMset (map (fun x => (rm_name x, rm_pkg x, index_of (rm_owner x) (s_named s) 0)) (mset_impl fl s (nthN i ids 0)))], m)
   | PEq a b => (out ++ [AEq (iface_eq_impl s (val_ids ids a) (val_ids ids b))], m)
@@ -71,16 +80,16 @@ Definition run_spec (f : family) : list ans :=
   let msets := map (spec_mset env) (f_univ f) in          (* once per type; the probes index into it *)
   let impl_of := fun (i : N) (it : ty) =>
     let ms := nthN i msets [] in
-    match find (fun tm => negb (existsb (fun vm => nm_eqb (fst vm) (fst tm) && identical (fst (snd vm)) (snd tm)) ms))
+    match filter (fun tm => negb (existsb (fun vm => nm_eqb (fst vm) (fst tm) && identical (fst (snd vm)) (snd tm)) ms))
                (iface_meths env it) with
-    | Some tm => (false, fst (fst tm))
-    | None => (true, ""%string)
+    | [] => AAssert true ""%string
+    | l => AAssertL false (map (fun tm => fst (fst tm)) l)
     end in
   map (fun p =>
     match p with
     | PIdent i j => AIdent (identical (tyN f i) (tyN f j))
-    | PAssert i j => let '(ok, m) := if is_iface env (tyN f j) then impl_of i (tyN f j)
-                                      else (identical (tyN f i) (tyN f j), ""%string) in AAssert ok m
+    | PAssert i j => if is_iface env (tyN f j) then impl_of i (tyN f j)
+                     else AAssert (identical (tyN f i) (tyN f j)) ""%string
     | PMset i => AMset (map (fun x => (fst (fst x), snd (fst x), snd (snd x))) (nthN i msets []))
     | PEq a b => AEq (spec_iface_eq env (f_univ f) a b)
     end) (f_probes f).
